@@ -2562,10 +2562,9 @@ static int matrix_addrow (
 				EGLPNUM_TYPENAME_EGlpNumCopy (A->matval[A->matbeg[j]], rowval[i]);
 				A->matcnt[j] = 1;
 			}
-			else if (A->matind[A->matbeg[j] + A->matcnt[j]] == -1)
+			else if (A->matbeg[j] + A->matcnt[j] < A->matsize &&
+							 A->matind[A->matbeg[j] + A->matcnt[j]] == -1)
 			{
-				/* Since A->matfree is positive, we know that we are not */
-				/* sitting at the end of the array.                      */
 				A->matind[A->matbeg[j] + A->matcnt[j]] = A->matrows;
 				EGLPNUM_TYPENAME_EGlpNumCopy (A->matval[A->matbeg[j] + A->matcnt[j]], rowval[i]);
 				if ((A->matbeg[j] + A->matcnt[j]) == (A->matsize - A->matfree))
@@ -2574,18 +2573,13 @@ static int matrix_addrow (
 				}
 				(A->matcnt[j])++;
 			}
-			else
+			else if (A->matcnt[j] + 2 <= A->matfree)
 			{
 				ind = A->matsize - A->matfree + 1;	/* leave space for -1 */
 				memo = ind;
 				stop = A->matbeg[j] + A->matcnt[j];
 				for (k = A->matbeg[j]; k < stop; k++)
 				{
-					if (ind >= A->matsize)
-					{
-						QSlog("WHAT: %d, %d", A->matsize, ind);
-						exit (1);
-					}
 					A->matind[ind] = A->matind[k];
 					EGLPNUM_TYPENAME_EGlpNumCopy (A->matval[ind], A->matval[k]);
 					A->matind[k] = -1;
@@ -2596,6 +2590,16 @@ static int matrix_addrow (
 				A->matbeg[j] = memo;
 				(A->matcnt[j])++;
 				(A->matfree) -= (A->matcnt[j] + 1);
+			}
+			else
+			{
+				/* Only reached when rowind repeats a column: delta counted the */
+				/* column as it was before the earlier entries of this row went */
+				/* into it.  Rebuild the array with the remaining entries.      */
+				rval = matrix_addrow_end (A, A->matrows, rowcnt - i, rowind + i,
+																	rowval + i);
+				CHECKRVALG (rval, CLEANUP);
+				break;
 			}
 		}
 	}
